@@ -206,4 +206,25 @@ CHECKS = {
         note="Message layout (ExceptionFormatter) is not decided.  Known "
              "finding: entity decoding before the reference shortens the "
              "recorded extent (expressions containing &lt; etc.)."),
+    "C11": dict(
+        technique="data-dependence analysis of Token methods against their "
+                  "position contracts; intra-procedural def-use chains of "
+                  "the token argument at every TemplateError raise site "
+                  "(plain-str and drift steps); census of raise/assert on "
+                  "the compile path",
+        text="Decides a position algebra for Token (what the pos of each "
+             "derived token depends on: slice start, stripped length, "
+             "separator), that the group-extraction helpers re-slice by "
+             "match spans, that at every 'raise <TemplateError>(msg, token)' "
+             "site on the compile path the token's def-use chain passes no "
+             "str method that drops the position and no helper that "
+             "shortens the text before splitting, that user-reachable "
+             "failures are TemplateError subclasses (no assert on "
+             "template-derived data), and that _cook stamps the file name.",
+        note="Not decided: line/column arithmetic of Token.location, and "
+             "that a valid template is never rejected.  Chains are followed "
+             "inside one function (parameters are assumed to be faithful "
+             "tokens).  Known findings: split_parts drift after ';;', "
+             "KeyError / LookupError for undeclared prefixes / unknown "
+             "expression types."),
 }
